@@ -1,4 +1,5 @@
 import CppUModel.Gen.RunnerConstants
+import CppUModel.Model.Asserts
 /-!
 Model of the test runner, written from the C++ line by line:
 
@@ -35,6 +36,74 @@ structure Loc where
   line : Nat
 deriving Repr, DecidableEq, Inhabited
 
+/-- one real check per assert function / macro family (the harness statement
+    `checkKind <k> <pass|fail>`).  What the check does — whether it fails, how often it calls
+    `countCheck()` — is taken from property C03's model of the check macros (`Model/Asserts.lean`),
+    applied to the operands the harness uses. -/
+inductive CheckKind
+  | check | checkText | checkEqual | longs | ulongs | longlongs | ulonglongs | bytes | sbytes
+  | pointers | fpointers | doubles | strcmp | strncmp | strcmpNocase | strcmpContains | strcmpNocaseContains
+  | memcmp0 | memcmp | bits | compare | enumsInt | throws
+  | cInt | cReal | cString | cPointer | cMemcmp0 | cMemcmp | cBits | checkC
+deriving Repr, DecidableEq, Inhabited
+
+/-- finite arithmetic for the two `DOUBLES_EQUAL`-type checks: their operands are small integers -/
+def intOps : Asserts.FinOps Int :=
+  { sub := fun a b => .fin (a - b), abs := fun a => Int.ofNat a.natAbs, le := fun a b => decide (a ≤ b),
+    pos := fun a => decide (a > 0) }
+
+def bAbc : Text.Bytes := [97, 98, 99]
+def bAbd : Text.Bytes := [97, 98, 100]
+def bAxd : Text.Bytes := [97, 120, 100]
+def bABC : Text.Bytes := [65, 66, 67]
+def bABD : Text.Bytes := [65, 66, 68]
+def bBc : Text.Bytes := [98, 99]
+def bAbcd : Text.Bytes := [97, 98, 99, 100]
+def baBCd : Text.Bytes := [97, 66, 67, 100]
+def m123 : Text.Bytes := [1, 2, 3]
+def m193 : Text.Bytes := [1, 9, 3]
+
+/-- the check macro applied to the harness' operands (`pass` selects the satisfying / violating
+    second operand; with length 0 both pass) -/
+def CheckKind.outcome (k : CheckKind) (pass : Bool) : Asserts.Outcome :=
+  match k with
+  | .check => Asserts.CHECK pass
+  | .checkText => Asserts.CHECK pass
+  | .checkEqual => Asserts.CHECK_EQUAL_int ⟨Asserts.tyInt, 1⟩ ⟨Asserts.tyInt, if pass then 1 else 2⟩
+  | .longs => Asserts.LONGS_EQUAL 1 (if pass then 1 else 2)
+  | .ulongs => Asserts.UNSIGNED_LONGS_EQUAL 1 (if pass then 1 else 2)
+  | .longlongs => Asserts.LONGLONGS_EQUAL 1 (if pass then 1 else 2)
+  | .ulonglongs => Asserts.UNSIGNED_LONGLONGS_EQUAL 1 (if pass then 1 else 2)
+  | .bytes => Asserts.BYTES_EQUAL ⟨Asserts.tyInt, 257⟩ ⟨Asserts.tyInt, if pass then 513 else 514⟩
+  | .sbytes => Asserts.SIGNED_BYTES_EQUAL (-1) (if pass then -1 else 2)
+  | .pointers => Asserts.POINTERS_EQUAL 4096 (if pass then 4096 else 8192)
+  | .fpointers => Asserts.FUNCTIONPOINTERS_EQUAL 4096 (if pass then 4096 else 8192)
+  | .doubles => Asserts.DOUBLES_EQUAL intOps (.fin 10) (.fin (if pass then 10 else 20)) (.fin 5)
+  | .strcmp => Asserts.STRCMP_EQUAL (some bAbc) (some (if pass then bAbc else bAbd))
+  | .strncmp => Asserts.STRNCMP_EQUAL (some bAbc) (some (if pass then bAbd else bAxd)) 2
+  | .strcmpNocase => Asserts.STRCMP_NOCASE_EQUAL (some bAbc) (some (if pass then bABC else bABD))
+  | .strcmpContains => Asserts.STRCMP_CONTAINS (some bBc) (some (if pass then bAbcd else bAbd))
+  | .strcmpNocaseContains => Asserts.STRCMP_NOCASE_CONTAINS (some bBc) (some (if pass then baBCd else bAbd))
+  | .memcmp0 => Asserts.MEMCMP_EQUAL (some m123) (some (if pass then m123 else m193)) 0
+  | .memcmp => Asserts.MEMCMP_EQUAL (some m123) (some (if pass then m123 else m193)) 3
+  | .bits => Asserts.BITS_EQUAL 21 (if pass then 53 else 20) 15 4
+  | .compare => Asserts.CHECK_COMPARE_int .lt ⟨Asserts.tyInt, 1⟩ ⟨Asserts.tyInt, if pass then 2 else 0⟩
+  | .enumsInt => Asserts.ENUMS_EQUAL_TYPE 32 1 (if pass then 1 else 2)
+  | .throws => Asserts.CHECK_THROWS (if pass then .expected else .nothing)
+  | .cInt => Asserts.CHECK_EQUAL_C_INT 1 (if pass then 1 else 2)
+  | .cReal => Asserts.CHECK_EQUAL_C_REAL intOps (.fin 10) (.fin (if pass then 10 else 20)) (.fin 5)
+  | .cString => Asserts.CHECK_EQUAL_C_STRING (some bAbc) (some (if pass then bAbc else bAbd))
+  | .cPointer => Asserts.CHECK_EQUAL_C_POINTER 4096 (if pass then 4096 else 8192)
+  | .cMemcmp0 => Asserts.CHECK_EQUAL_C_MEMCMP (some m123) (some (if pass then m123 else m193)) 0
+  | .cMemcmp => Asserts.CHECK_EQUAL_C_MEMCMP (some m123) (some (if pass then m123 else m193)) 3
+  | .cBits => Asserts.CHECK_EQUAL_C_BITS 21 (if pass then 53 else 20) 15 4
+  | .checkC => Asserts.CHECK_C (if pass then 1 else 0)
+
+/-- the C entry points of TestHarness_c.cpp pass the terminator without exceptions -/
+def CheckKind.isC : CheckKind → Bool
+  | .cInt | .cReal | .cString | .cPointer | .cMemcmp0 | .cMemcmp | .cBits | .checkC => true
+  | _ => false
+
 /-- one statement of a test phase -/
 inductive Stmt
   | mark (n : Nat)                        -- an observable side effect of the test program
@@ -45,6 +114,8 @@ inductive Stmt
   | throwOther                            -- `throw 42`
   | exitTest                              -- `TEST_EXIT` = exitTest(default terminator)
   | exitTestC                             -- `exitTest(TestTerminatorWithoutExceptions())`
+  | check (k : CheckKind) (pass : Bool) (loc : Loc) (msg : String)
+      -- one real check of kind `k`; `msg` is the text of its failure
 deriving Repr, DecidableEq, Inhabited
 
 inductive Phase
@@ -111,6 +182,8 @@ deriving Repr, DecidableEq, Inhabited
 def Result.countTest (r : Result) : Result := { r with testCount := r.testCount + 1 }
 def Result.countRun (r : Result) : Result := { r with runCount := r.runCount + 1 }
 def Result.countCheck (r : Result) : Result := { r with checkCount := r.checkCount + 1 }
+/-- `countCheck()` called `n` times -/
+def Result.countChecks (r : Result) (n : Nat) : Result := { r with checkCount := r.checkCount + n }
 def Result.countFilteredOut (r : Result) : Result := { r with filteredOutCount := r.filteredOutCount + 1 }
 def Result.countIgnored (r : Result) : Result := { r with ignoredCount := r.ignoredCount + 1 }
 /-- the counter part of `TestResult::addFailure` (the print is the event `Ev.failure`) -/
@@ -242,6 +315,11 @@ def runStmts (cfg : Cfg) (t : Test) (ph : Phase) (d : Int) : Result → Bool →
     if cfg.exceptions then ⟨res, hf, [], .exc .other⟩ else runStmts cfg t ph d res hf rest
   | res, hf, .exitTest :: _ => ⟨res, hf, [], normalTerminator cfg⟩
   | res, hf, .exitTestC :: _ => ⟨res, hf, [], .longjmp⟩
+  | res, hf, .check k pass loc msg :: rest =>
+    if (k.outcome pass).fails then
+      ⟨(res.countChecks (k.outcome pass).counted).countFailure, true, [.failure (mkRec cfg t loc msg)],
+       if k.isC then .longjmp else normalTerminator cfg⟩
+    else runStmts cfg t ph d (res.countChecks (k.outcome pass).counted) hf rest
 
 /-! ## the setjmp stack -/
 
